@@ -23,6 +23,16 @@ pub trait Grp: Copy + PartialEq + Add<Output = Self> + Sub<Output = Self> + Neg<
     fn affine_new(x: &[u8], y: &[u8]) -> Option<Self>;
     fn enc(&self, fmt: &str) -> Vec<u8>;
     fn dec(bytes: &[u8], fmt: &str) -> Option<Self>;
+    /// the order-3 endomorphism (x, y) -> (w x, y), w a primitive cube root of unity of Fq, applied to the representative as it is
+    fn endo(&self) -> Self;
+}
+
+/// a primitive cube root of unity of Fq: (-1 + sqrt(-3)) / 2
+pub fn cube_root_of_unity() -> Fq {
+    let three = Fq::one() + Fq::one() + Fq::one();
+    let s = (-three).sqrt().expect("q = 1 mod 3");
+    let two_inv = (Fq::one() + Fq::one()).inverse().unwrap();
+    (s - Fq::one()) * two_inv
 }
 
 impl Grp for G1 {
@@ -54,6 +64,9 @@ impl Grp for G1 {
             "unc" => G1::from_uncompressed(bytes).ok(),
             _ => G1::from_compressed(bytes).ok(),
         }
+    }
+    fn endo(&self) -> Self {
+        G1::new(self.x() * cube_root_of_unity(), self.y(), self.z())
     }
 }
 
@@ -88,6 +101,9 @@ impl Grp for G2 {
             "unc" => G2::from_uncompressed(bytes).ok(),
             _ => G2::from_compressed(bytes).ok(),
         }
+    }
+    fn endo(&self) -> Self {
+        G2::new(self.x() * Fq2::new(cube_root_of_unity(), Fq::zero()), self.y(), self.z())
     }
 }
 
